@@ -181,6 +181,89 @@ def frame_oracle(model, I_c, tol_c, c, dc, mass, dmass, Tm):
     return want, tol
 
 
+def underflow_floor(T, *others):
+    """gradual underflow: a product below 2^-1022 has an absolute error of up to 2^-1075 that the relative model does
+    not cover; whatever is multiplied onto it afterwards is bounded by the magnitudes given"""
+    u = 64 * 2.0**-1022 * (1 + float(np.abs(T).max())) ** 5
+    for o, power in others:
+        u *= (1 + float(np.max(np.abs(o)))) ** power
+    return u
+
+
+def check_mass_state(mesh, model, sigp, tag, density, override, frames, U, defer):
+    """Compare every mass quantity of `mesh` in its current state with the exact integrals in `model`.
+    override: the centre the mesh was told to use (float64 (3,)) or None.
+    frames: list of (label, object handed to moment_inertia_frame, float64 4x4 holding the same values).
+    defer: list collecting a violation that must not stop the remaining comparisons."""
+    from fractions import Fraction
+
+    def _cmp(got, want, tol, sig, what):
+        _cmp0(got, want, np.asarray(tol, dtype=np.float64) + U, sig, what)
+
+    ex = model.ex
+    Vx, tV = model.V, model.tV
+    d = float(density)
+    dF = Fraction(d)
+    sig = sigp
+    _cmp(mesh.volume, Vx, tV, sig + "volume|" + tag, "Trimesh.volume")
+    check(float(mesh.density) == d, sig + "density|" + tag, f"density {mesh.density!r} != {d!r}")
+    tm = abs(d) * tV + 2 * EPS * abs(d * Vx)
+    _cmp(mesh.mass, d * Vx, tm, sig + "mass|" + tag, f"Trimesh.mass (density {d})")
+    got_c = np.array(mesh.center_mass, dtype=np.float64)
+    check(got_c.shape == (3,), sig + "center_mass|shape|" + tag, str(got_c.shape))
+    centre = None  # (floats, tolerance, exact Fractions) of the centre the library reports
+    if override is not None:
+        check(np.array_equal(got_c, override), sig + "center_mass|override_not_honoured", f"got {got_c.tolist()} set {np.asarray(override).tolist()}")
+        centre = (override, np.zeros(3), [Fraction(float(x)) for x in override])
+    elif model.wellcond:
+        if abs(float(mesh.volume)) < tm_tol.zero and not got_c.any():
+            # absolute zero-volume shortcut of the library taken although the solid is well conditioned
+            if (np.abs(model.cm) > model.tcm).any():
+                if not defer:
+                    defer.append(
+                        Violation(
+                            sig + "center_mass|abs_volume_threshold",
+                            f"volume {float(mesh.volume)!r} (exact {Vx!r}, tolerance {tV:.3e}) is below tol.zero={tm_tol.zero}: "
+                            f"center_mass reported as origin, exact {model.cm.tolist()}",
+                        )
+                    )
+                centre = (np.zeros(3), np.zeros(3), [Fraction(0)] * 3)
+        if centre is None:
+            _cmp(got_c, model.cm, model.tcm, sig + "center_mass|" + tag, "Trimesh.center_mass")
+            centre = (model.cm, model.tcm, ex.center_mass())
+    if centre is None:
+        return  # ill-conditioned centre: nothing more can be said without dividing by ~0
+    cf, dc, cF = centre
+    I_c = ex.inertia_centre_convention(cF)
+    I_cd = [[dF * x for x in row] for row in I_c]
+    want = _mat(I_cd)
+    tolI = model.inertia_at_centre(cf, dc, d, want)
+    got = np.array(mesh.moment_inertia, dtype=np.float64)
+    _cmp(got, want, tolI, sig + "moment_inertia|" + tag, f"Trimesh.moment_inertia (density {d})")
+    mp = mesh.mass_properties
+    check(
+        np.array_equal(mp["inertia"], got) and mp["volume"] == mesh.volume and mp["mass"] == mesh.mass
+        and np.array_equal(mp["center_mass"], got_c) and float(mp["density"]) == d and np.array_equal(mp.inertia, got),
+        sig + "mass_properties|fields|" + tag,
+        "mass_properties fields differ from the Trimesh attributes",
+    )
+    massF = dF * ex.V
+    for flabel, fobj, fref in frames:
+        wantF, tolF = frame_oracle(model, I_cd, tolI, cF, dc, massF, tm, fref)
+        gotF = mesh.moment_inertia_frame(fobj)
+        _cmp(gotF, wantF, tolF, sig + f"moment_inertia_frame|{tag}|{flabel}", f"moment_inertia_frame({flabel}) density {d}")
+
+
+def check_surface(mesh, model, sigp, tag, U):
+    """triangles_cross / area_faces / area of the mesh object against the exact values of its current geometry"""
+    T = model.T
+    nx = np.array([[_f(x) for x in n] for _, n in ox.cross_sq_exact(T)]).reshape((-1, 3))
+    area_x, per_x = ox.area_exact(T)
+    _cmp0(mesh.triangles_cross, nx, (0.0 if model.exact else 4 * EPS) * model.nmaj + U, sigp + "Trimesh.triangles_cross|" + tag, "Trimesh.triangles_cross")
+    _cmp0(mesh.area_faces, np.array(per_x), 8 * EPS * model.areamaj + U, sigp + "Trimesh.area_faces|" + tag, "Trimesh.area_faces")
+    _cmp0(mesh.area, area_x, 64 * EPS * model.Aarea + U, sigp + "Trimesh.area|" + tag, "Trimesh.area")
+
+
 # ======================================================================================= (a) integer grid
 
 
@@ -378,7 +461,6 @@ def b_mesh(case, ctx):
         Icm_x = ex.inertia_cm()
         nontriv = all(x != 0 for x in ex.m1) and Icm_x[0][1] != 0 and Icm_x[1][2] != 0 and Icm_x[0][2] != 0
     ctx.note(nontrivial=nontriv, cls=_classes(case, V, F, model))
-    deferred = None
     frame = np.array(case["frame"]["M"], dtype=np.float64)
     shift = np.asarray(case["shift"], dtype=np.float64)
     frame[:3, 3] = frame[:3, 3] * float(case["scale"]) + (shift if case["frame_at_mesh"] else 0.0)
@@ -390,12 +472,7 @@ def b_mesh(case, ctx):
         c = shift + np.asarray(case["cm"], dtype=np.float64) * float(case["scale"])
     d = float(case["density"])
     d2 = float(case["density2"])
-    # gradual underflow: a product below 2^-1022 has an absolute error of up to 2^-1075 that the relative model does
-    # not cover; whatever is multiplied onto it afterwards is bounded by the magnitudes below
-    U = (
-        64 * 2.0**-1022 * (1 + float(np.abs(T).max())) ** 5 * (1 + max(abs(d), abs(d2)))
-        * (1 + float(np.abs(c).max())) ** 2 * (1 + float(np.abs(frame[:3, 3]).max())) ** 2
-    )
+    U = underflow_floor(T, (max(abs(d), abs(d2)), 1), (c, 2), (frame[:3, 3], 2))
 
     def _cmp(got, want, tol, sig, what):  # noqa: F811  (shadows the module level comparator, adds the underflow floor)
         _cmp0(got, want, np.asarray(tol, dtype=np.float64) + U, sig, what)
@@ -419,58 +496,11 @@ def b_mesh(case, ctx):
     # ---- default density / centre
     Vx, tV = model.V, model.tV
 
+    defer = []
+    frames = [("identity", np.eye(4), np.eye(4)), ("rigid", frame, frame)]
+
     def check_state(tag, density, override):
-        """compare every mass quantity of `mesh` in its current state with the oracle"""
-        nonlocal deferred
-        d = float(density)
-        dF = Fraction(d)
-        sig = "C03.mesh|"
-        _cmp(mesh.volume, Vx, tV, sig + "volume|" + tag, "Trimesh.volume")
-        check(float(mesh.density) == d, sig + "density|" + tag, f"density {mesh.density!r} != {d!r}")
-        tm = abs(d) * tV + 2 * EPS * abs(d * Vx)
-        _cmp(mesh.mass, d * Vx, tm, sig + "mass|" + tag, f"Trimesh.mass (density {d})")
-        got_c = np.array(mesh.center_mass, dtype=np.float64)
-        check(got_c.shape == (3,), sig + "center_mass|shape|" + tag, str(got_c.shape))
-        centre = None  # (floats, tolerance, exact Fractions) of the centre the library reports
-        if override is not None:
-            check(np.array_equal(got_c, override), sig + "center_mass|override_not_honoured", f"got {got_c.tolist()} set {override.tolist()}")
-            centre = (override, np.zeros(3), [Fraction(float(x)) for x in override])
-        elif model.wellcond:
-            if abs(float(mesh.volume)) < tm_tol.zero and not got_c.any():
-                # absolute zero-volume shortcut of the library taken although the solid is well conditioned
-                if (np.abs(model.cm) > model.tcm).any():
-                    if deferred is None:
-                        deferred = Violation(
-                            sig + "center_mass|abs_volume_threshold",
-                            f"volume {float(mesh.volume)!r} (exact {Vx!r}, tolerance {tV:.3e}) is below tol.zero={tm_tol.zero}: "
-                            f"center_mass reported as origin, exact {model.cm.tolist()}",
-                        )
-                    centre = (np.zeros(3), np.zeros(3), [Fraction(0)] * 3)
-            if centre is None:
-                _cmp(got_c, model.cm, model.tcm, sig + "center_mass|" + tag, "Trimesh.center_mass")
-                centre = (model.cm, model.tcm, ex.center_mass())
-        if centre is None:
-            return  # ill-conditioned centre: nothing more can be said without dividing by ~0
-        cf, dc, cF = centre
-        I_c = ex.inertia_centre_convention(cF)
-        I_cd = [[dF * x for x in row] for row in I_c]
-        want = _mat(I_cd)
-        tolI = model.inertia_at_centre(cf, dc, d, want)
-        got = np.array(mesh.moment_inertia, dtype=np.float64)
-        _cmp(got, want, tolI, sig + "moment_inertia|" + tag, f"Trimesh.moment_inertia (density {d})")
-        mp = mesh.mass_properties
-        check(
-            np.array_equal(mp["inertia"], got) and mp["volume"] == mesh.volume and mp["mass"] == mesh.mass
-            and np.array_equal(mp["center_mass"], got_c) and float(mp["density"]) == d and np.array_equal(mp.inertia, got),
-            sig + "mass_properties|fields|" + tag,
-            "mass_properties fields differ from the Trimesh attributes",
-        )
-        massF = dF * ex.V
-        frames = [("identity", np.eye(4)), (case["frame"]["cls"], frame)]
-        for fcls, Tm in frames:
-            wantF, tolF = frame_oracle(model, I_cd, tolI, cF, dc, massF, tm, Tm)
-            gotF = mesh.moment_inertia_frame(Tm)
-            _cmp(gotF, wantF, tolF, sig + f"moment_inertia_frame|{tag}|{'identity' if fcls == 'identity' else 'rigid'}", f"moment_inertia_frame({fcls}) density {d}")
+        check_mass_state(mesh, model, "C03.mesh|", tag, density, override, frames, U, defer)
 
     check_state("default", 1.0, None)
     mesh.density = d
@@ -507,14 +537,14 @@ def b_mesh(case, ctx):
         for name, Tm in (("4x4", frame), ("3x3", R)):
             _cmp(tm_inertia.transform_inertia(Tm, X), want, tolR, "C03.mesh|transform_inertia|rotate|" + name, f"transform_inertia({name}) vs R I R^T")
 
-    if deferred is not None:
-        raise deferred
+    if defer:
+        raise defer[0]
 
 
 @st.composite
-def mesh_case(draw, scales=None, modes=None):
+def mesh_case(draw, scales=None, modes=None, max_parts=3, max_faces=200):
     overlap = draw(st.booleans())
-    spec = draw(gmesh.mesh_spec(kinds=KINDS, max_parts=3, lattice=True, disjoint=not overlap, max_faces=200))
+    spec = draw(gmesh.mesh_spec(kinds=KINDS, max_parts=max_parts, lattice=True, disjoint=not overlap, max_faces=max_faces))
     mode = draw(st.sampled_from(modes or ["template", "template", "template", "random", "randint"]))
     case = {"spec": spec, "overlap": overlap, "seed": draw(st.integers(0, 2**31 - 1))}
     integer = False
@@ -555,6 +585,482 @@ def s_mesh(ctx):
 def s_small(ctx):
     # solids whose volume is small in absolute terms (10 micron features in metre units)
     ctx.given("C03.mesh", mesh_case(scales=[1e-6, 1e-5, 1e-4], modes=["template", "template", "random"]), n={"quick": 400, "thorough": 8000})
+
+
+# ======================================================================================= (c) warm objects across transforms
+
+WARM_ATTRS = [
+    "volume", "area", "mass", "center_mass", "moment_inertia", "mass_properties", "triangles_cross", "area_faces",
+    "face_normals", "triangles", "triangles_center", "centroid", "bounds", "principal_inertia_components",
+]  # fmt: skip
+
+
+def signed_permutation(perm, signs):
+    """proper rotation with entries in {-1,0,1}: permutation matrix times signs, last sign fixed so that det = +1"""
+    R = np.zeros((3, 3))
+    for i, j in enumerate(perm):
+        R[i, j] = float(signs[i])
+    if np.linalg.det(R) < 0:
+        R[2] *= -1.0
+    return R
+
+
+def _step_matrix(step, scale):
+    """the 4x4 a step stands for, and how it is handed to the mesh"""
+    op = step["op"]
+    M = np.eye(4)
+    if op == "transform":
+        M = np.array(step["mat"]["M"], dtype=np.float64)
+        M[:3, 3] *= scale
+    elif op == "lattice":
+        M[:3, :3] = float(step["s"]) * signed_permutation(step["perm"], step["signs"])
+        M[:3, 3] = np.asarray(step["t"], dtype=np.float64)
+    elif op == "scale":
+        M[:3, :3] = np.diag(np.ones(3) * np.asarray(step["s"], dtype=np.float64))
+    elif op == "translate":
+        M[:3, 3] = np.asarray(step["t"], dtype=np.float64) * scale
+    return M
+
+
+def _is_uniform_scale(M):
+    L = M[:3, :3]
+    G = L.T @ L
+    s2 = np.trace(G) / 3.0
+    return bool(np.allclose(G, s2 * np.eye(3), rtol=0, atol=1e-9 * s2) and abs(s2 - 1.0) > 1e-3)
+
+
+@body("C03.warm")
+def b_warm(case, ctx):
+    """One mesh object that lives through a sequence of transforms: values are read before each transform (so
+    whatever the library keeps across it is warm) and after each transform every mass quantity must equal the exact
+    integrals of the geometry the object holds *now* (its current vertices and faces, read as plain arrays)."""
+    V, F = build_case(case)
+    scale = float(case["scale"])
+    shift = np.asarray(case["shift"], dtype=np.float64)
+    mesh = trimesh.Trimesh(vertices=V, faces=F, process=False)
+    d = 1.0
+    if case["pre_density"]:
+        d = float(case["density"])
+        mesh.density = d
+    if case["pre_override"]:
+        mesh.center_mass = shift + np.asarray(case["cm"], dtype=np.float64) * scale
+    frame0 = np.array(case["frame"]["M"], dtype=np.float64)
+    for name in case["warm"]:
+        getattr(mesh, name)
+    classes = ["warm:pre_reads:%d" % min(len(case["warm"]), 3)]
+    nontriv = False
+    defer = []
+    for k, step in enumerate(case["steps"]):
+        M = _step_matrix(step, scale)
+        op = step["op"]
+        if op in ("transform", "lattice"):
+            obj = as_rep(M, step.get("rep", "f64"))
+            if obj is None:
+                obj = M
+            else:
+                classes.append("warm:matrix_rep:" + step.get("rep", "f64"))
+            mesh.apply_transform(obj)
+            classes.append("warm:op:" + (step["mat"]["cls"] if op == "transform" else "lattice"))
+        elif op == "scale":
+            mesh.apply_scale(step["s"])
+            classes.append("warm:op:apply_scale" + ("_vector" if isinstance(step["s"], list) else ""))
+        else:
+            mesh.apply_translation((np.asarray(step["t"], dtype=np.float64) * scale).tolist())
+            classes.append("warm:op:apply_translation")
+        warm_before = bool(case["warm"]) or k > 0
+        if _is_uniform_scale(M) and warm_before:
+            classes.append("warm:uniform_scale_on_warm_object")
+        if np.linalg.det(M[:3, :3]) < 0 and warm_before:
+            classes.append("warm:mirror_on_warm_object")
+        # the geometry the object holds now
+        Vc = np.array(mesh.vertices.view(np.ndarray), dtype=np.float64)
+        Fc = np.array(mesh.faces.view(np.ndarray), dtype=np.int64)
+        if not np.isfinite(Vc).all():
+            break
+        model = Model(Vc[Fc])
+        scale_now = max(float(np.abs(Vc).max()), 1e-300)
+        frame = frame0.copy()
+        frame[:3, 3] *= scale_now
+        override = None
+        if case["pre_override"]:
+            override = np.array(mesh.center_mass, dtype=np.float64)  # carried along by the library; taken as given
+            check(np.isfinite(override).all(), "C03.warm|center_mass|override_not_finite", str(override))
+        U = underflow_floor(model.T, (d, 1), (override if override is not None else 0.0, 2), (frame[:3, 3], 2))
+        tag = "step%d" % min(k, 1) + ("|override" if override is not None else "")
+        check_surface(mesh, model, "C03.warm|", tag, U)
+        frames = [("identity", np.eye(4), np.eye(4)), ("rigid", frame, frame)]
+        check_mass_state(mesh, model, "C03.warm|", tag, d, override, frames, U, defer)
+        if model.wellcond:
+            Icm = model.ex.inertia_cm()
+            nontriv = nontriv or (all(x != 0 for x in model.ex.m1) and Icm[0][1] != 0 and Icm[1][2] != 0 and Icm[0][2] != 0)
+        for name in step.get("reads", []):
+            getattr(mesh, name)
+    ctx.note(nontrivial=nontriv, cls=sorted(set(classes)))
+    if defer:
+        raise defer[0]
+
+
+REPS = ["f64", "list", "f32", "f16", "int64", "int32", "intlist", "readonly", "fortran", "strided"]
+
+
+@st.composite
+def warm_case(draw):
+    case = draw(mesh_case(max_parts=2, max_faces=100))
+    case["warm"] = draw(st.lists(st.sampled_from(WARM_ATTRS), min_size=0, max_size=4, unique=True))
+    case["pre_density"] = draw(st.booleans())
+    case["pre_override"] = draw(st.sampled_from([False, False, True]))
+    steps = []
+    for _ in range(draw(st.integers(1, 3))):
+        op = draw(st.sampled_from(["transform", "transform", "transform", "lattice", "scale", "translate"]))
+        step = {"op": op}
+        if op == "transform":
+            step["mat"] = draw(gmat.matrix())
+            step["rep"] = draw(st.sampled_from(REPS))
+        elif op == "lattice":
+            step["perm"] = list(draw(st.permutations([0, 1, 2])))
+            step["signs"] = [draw(st.sampled_from([1, -1])) for _ in range(3)]
+            step["s"] = draw(st.sampled_from([1, 2, 3, -1, -2]))
+            step["t"] = [draw(st.integers(-5, 5)) for _ in range(3)]
+            step["rep"] = draw(st.sampled_from(REPS))
+        elif op == "scale":
+            uniform = st.one_of(st.sampled_from([2.0, 0.5, 3.0, 10.0, 0.1, 2, 3]), st.floats(0.05, 20.0, allow_nan=False))
+            step["s"] = draw(st.one_of(uniform, uniform, st.lists(st.floats(0.2, 5.0, allow_nan=False), min_size=3, max_size=3)))
+        else:
+            step["t"] = [draw(st.floats(-3, 3, allow_nan=False)) for _ in range(3)]
+        step["reads"] = draw(st.lists(st.sampled_from(WARM_ATTRS), min_size=0, max_size=2, unique=True))
+        steps.append(step)
+    case["steps"] = steps
+    return case
+
+
+@subcheck("C03", "warm", shards={"quick": 6, "thorough": 12})
+def s_warm(ctx):
+    ctx.given("C03.warm", warm_case(), n={"quick": 1200, "thorough": 40000})
+
+
+# ======================================================================================= (d) representations of the arguments
+
+
+def as_rep(a, kind):
+    """An object holding exactly the values of the float64 array `a`, written down as `kind`;
+    None when that representation cannot hold the values exactly (the values do not allow it)."""
+    a = np.asarray(a, dtype=np.float64)
+    if kind == "f64":
+        return np.array(a)
+    if kind == "list":
+        return a.tolist()
+    if kind in ("f32", "f16"):
+        with np.errstate(over="ignore", under="ignore"):
+            b = a.astype(np.float32 if kind == "f32" else np.float16)
+        return b if np.array_equal(b.astype(np.float64), a) else None
+    if kind in ("int64", "int32", "intlist"):
+        lim = 2.0**31 - 1 if kind == "int32" else 2.0**53
+        if not (np.isfinite(a).all() and (a == np.round(a)).all() and (np.abs(a) < lim).all()):
+            return None
+        b = a.astype(np.int32 if kind == "int32" else np.int64)
+        return b.tolist() if kind == "intlist" else b
+    if kind == "readonly":
+        b = np.array(a)
+        b.setflags(write=False)
+        return b
+    if kind == "fortran":
+        return np.asfortranarray(np.array(a))
+    if kind == "strided":
+        if a.ndim == 0:
+            return np.array(a)
+        big = np.zeros(a.shape[:-1] + (2 * a.shape[-1],))
+        big[..., ::2] = a
+        return big[..., ::2]
+    raise ValueError(kind)
+
+
+def as_scalar_rep(x, kind):
+    x = float(x)
+    if kind == "float":
+        return x
+    if kind == "int":
+        return int(x) if x == int(x) else None
+    if kind == "np32":
+        return np.float32(x) if float(np.float32(x)) == x else None
+    if kind == "np64":
+        return np.float64(x)
+    if kind == "0d":
+        return np.array(x)
+    raise ValueError(kind)
+
+
+SCALAR_REPS = ["float", "int", "np32", "np64", "0d"]
+FACE_REPS = ["int64", "int32", "list", "readonly", "fortran", "strided"]
+
+
+def as_face_rep(F, kind):
+    F = np.asarray(F, dtype=np.int64)
+    if kind == "int64":
+        return np.array(F)
+    if kind == "int32":
+        return F.astype(np.int32)
+    if kind == "list":
+        return F.tolist()
+    if kind == "readonly":
+        b = np.array(F)
+        b.setflags(write=False)
+        return b
+    if kind == "fortran":
+        return np.asfortranarray(F)
+    big = np.zeros((len(F), 6), dtype=np.int64)
+    big[:, ::2] = F
+    return big[:, ::2]
+
+
+def quantize(a, q):
+    """round the values to what float32 / float16 can hold (result is float64 again): afterwards the low precision
+    representations hold exactly the same numbers as the float64 one"""
+    a = np.asarray(a, dtype=np.float64)
+    if q == "f16" and (np.abs(a) >= 6.0e4).any():
+        q = "f32"
+    if q == "f32":
+        with np.errstate(over="ignore", under="ignore"):
+            b = a.astype(np.float32).astype(np.float64)
+        return b if np.isfinite(b).all() else a
+    if q == "f16":
+        with np.errstate(over="ignore", under="ignore"):
+            return a.astype(np.float16).astype(np.float64)
+    return a
+
+
+class _Args:
+    """the representation chosen for every argument of the case; falls back to float64 when the values do not allow it"""
+
+    def __init__(self, kinds):
+        self.kinds = dict(kinds)
+        self.used = {}
+
+    def arr(self, name, a):
+        k = self.kinds.get(name, "f64")
+        obj = as_rep(a, k)
+        if obj is None:
+            k, obj = "f64", np.array(np.asarray(a, dtype=np.float64))
+        self.used[name] = k
+        return obj
+
+    def scalar(self, name, x):
+        k = self.kinds.get(name, "float")
+        obj = as_scalar_rep(x, k)
+        if obj is None:
+            k, obj = "float", float(x)
+        self.used[name] = k
+        return obj
+
+    def faces(self, name, F):
+        k = self.kinds.get(name, "int64")
+        self.used[name] = k
+        return as_face_rep(F, k)
+
+    def label(self):
+        plain = {"f64", "float", "int64:faces"}
+        out = [f"{n}={k}" for n, k in sorted(self.used.items()) if k not in plain and not (n == "faces" and k == "int64")]
+        return ",".join(out) if out else "plain"
+
+
+def _run_args(case, kinds, ctx_classes=None):
+    """all calls of the case with the given representation per argument; raises Violation"""
+    from fractions import Fraction
+
+    q = case["quant"]
+    V, F = build_case(case)
+    V = quantize(V, q)
+    T = V[F]
+    model = Model(T)
+    ex = model.ex
+    scale = float(case["scale"])
+    shift = np.asarray(case["shift"], dtype=np.float64)
+    if case["frame_lattice"] is not None:
+        fl = case["frame_lattice"]
+        frame = np.eye(4)
+        frame[:3, :3] = signed_permutation(fl["perm"], fl["signs"])
+        frame[:3, 3] = np.asarray(fl["t"], dtype=np.float64)
+    else:
+        frame = np.array(case["frame"]["M"], dtype=np.float64)
+        frame[:3, 3] = frame[:3, 3] * scale + (shift if case["frame_at_mesh"] else 0.0)
+        frame = quantize(frame, q)
+    if case["cm_mode"] == "origin":
+        c = np.zeros(3)
+    elif case["cm_mode"] == "shift":
+        c = shift.copy()
+    elif case["cm_mode"] == "lattice":
+        c = np.round(shift + np.asarray(case["cm"], dtype=np.float64))
+    else:
+        c = shift + np.asarray(case["cm"], dtype=np.float64) * scale
+    c = quantize(c, q)
+    d = float(quantize(case["density"], q if q != "f16" else "f32"))
+    A = _Args(kinds)
+    U = underflow_floor(T, (d, 1), (c, 2), (frame[:3, 3], 2))
+    Vx, tV = model.V, model.tV
+    P = "C03.args|"
+
+    def cmp(got, want, tol, sig, what):
+        _cmp0(got, want, np.asarray(tol, dtype=np.float64) + U, sig, what)
+
+    def call(sig, fn):
+        # the representations used here are all documented as accepted ("(n, 3, 3) float", "(3,) float", "(4, 4) float")
+        try:
+            return fn()
+        except (TypeError, AttributeError, ValueError, IndexError, OverflowError) as e:
+            raise Violation(sig + "|raises_" + type(e).__name__, f"{type(e).__name__}: {e}")
+
+    # ---- triangles.* on the raw triangle array
+    t_obj = A.arr("triangles", T)
+    r = call(P + "triangles.mass_properties|default", lambda: tm_triangles.mass_properties(t_obj))
+    cmp(r.volume, Vx, tV, P + "triangles.mass_properties|volume", "volume")
+    centre = None
+    if model.wellcond:
+        cmp(r.center_mass, model.cm, model.tcm, P + "triangles.mass_properties|center_mass", "center_mass")
+        want = _mat(ex.inertia_cm())
+        cmp(r.inertia, want, model.inertia_at_centre(model.cm, model.tcm, 1.0, want), P + "triangles.mass_properties|inertia", "inertia")
+    my_cross = np.cross(T[:, 1] - T[:, 0], T[:, 2] - T[:, 0])
+    cr_obj = A.arr("crosses", my_cross)
+    c_obj = A.arr("center_mass", c)
+    d_obj = A.scalar("density", d)
+    r = call(
+        P + "triangles.mass_properties|options",
+        lambda: tm_triangles.mass_properties(t_obj, crosses=cr_obj, density=d_obj, center_mass=c_obj, skip_inertia=bool(case["skip_inertia"])),
+    )
+    cmp(r.volume, Vx, tV, P + "triangles.mass_properties|options|volume", "volume (crosses=, density=, center_mass=)")
+    cmp(r.mass, d * Vx, abs(d) * tV + 2 * EPS * abs(d * Vx), P + "triangles.mass_properties|options|mass", "mass (density=)")
+    check(np.array_equal(np.asarray(r.center_mass, dtype=np.float64), c), P + "triangles.mass_properties|options|center_mass", "center_mass argument not returned")
+    if case["skip_inertia"]:
+        check(r.inertia is None, P + "triangles.mass_properties|options|skip_inertia", "inertia returned with skip_inertia=True")
+    else:
+        cF = [Fraction(float(x)) for x in c]
+        dF = Fraction(d)
+        want = _mat([[dF * x for x in row] for row in ex.inertia_centre_convention(cF)])
+        cmp(r.inertia, want, model.inertia_at_centre(c, np.zeros(3), d, want), P + "triangles.mass_properties|options|inertia", "inertia (crosses=, density=, center_mass=)")
+    area_x, per_x = ox.area_exact(T)
+    per_x = np.array(per_x)
+    tol_face = 8 * EPS * model.areamaj
+    cmp(call(P + "triangles.area|triangles", lambda: tm_triangles.area(t_obj)), per_x, tol_face, P + "triangles.area|triangles", "triangles.area(triangles)")
+    cmp(call(P + "triangles.area|crosses", lambda: tm_triangles.area(crosses=cr_obj)), per_x, tol_face, P + "triangles.area|crosses", "triangles.area(crosses=)")
+    if isinstance(t_obj, np.ndarray) and t_obj.dtype.kind == "f" and t_obj.dtype.itemsize == 8 or (isinstance(t_obj, np.ndarray) and t_obj.dtype == np.int64):
+        # cross() is a primitive on arrays (no conversion promised): layouts and exact integers only
+        nx = np.array([[_f(x) for x in n] for _, n in ox.cross_sq_exact(T)]).reshape((-1, 3))
+        cmp(call(P + "triangles.cross", lambda: tm_triangles.cross(t_obj)), nx, (0.0 if model.exact else 4 * EPS) * model.nmaj, P + "triangles.cross", "triangles.cross")
+
+    # ---- the mesh object
+    mesh = call(P + "Trimesh", lambda: trimesh.Trimesh(vertices=A.arr("vertices", V), faces=A.faces("faces", F), process=False))
+    check_surface(mesh, model, P, "default", U)
+    f_obj = A.arr("frame", frame)
+    i_obj = A.arr("identity", np.eye(4))
+    frames = [("identity", i_obj, np.eye(4)), ("rigid", f_obj, frame)]
+    defer = []
+    call(P + "moment_inertia_frame", lambda: check_mass_state(mesh, model, P, "default", 1.0, None, frames, U, defer))
+    mesh.density = A.scalar("density_set", d)
+    mesh.center_mass = A.arr("center_mass_set", c)
+    call(P + "moment_inertia_frame", lambda: check_mass_state(mesh, model, P, "override", d, c, frames, U, defer))
+
+    # ---- transform_inertia
+    if model.wellcond:
+        X = quantize(np.array(tm_triangles.mass_properties(T).inertia, dtype=np.float64), q)
+        R = frame[:3, :3]
+        XF = [[Fraction(float(x)) for x in row] for row in X]
+        want = _mat(ox.rotate_body(XF, R.tolist()))
+        tolR = 16 * EPS * (np.abs(R) @ np.abs(X) @ np.abs(R).T)
+        x_obj = A.arr("tensor", X)
+        r_obj = A.arr("rotation", R)
+        cmp(call(P + "transform_inertia", lambda: tm_inertia.transform_inertia(r_obj, x_obj)), want, tolR, P + "transform_inertia|rotate", "transform_inertia vs R I R^T")
+        # parallel axis form: R^T (X + m M(a)) R
+        mval = float(quantize(abs(Vx) + 1.0, "f32"))
+        mF = Fraction(mval)
+        a = [Fraction(float(x)) for x in frame[:3, 3]]
+        Ms = ox.shift_matrix(a)
+        aligned = [[XF[i][j] + mF * Ms[i][j] for j in range(3)] for i in range(3)]
+        want = _mat(ox.rotate_into_frame(aligned, R.tolist()))
+        mag = np.abs(X) + mval * np.abs(_mat(Ms))
+        tolP = 32 * EPS * (np.abs(R).T @ mag @ np.abs(R))
+        got = call(P + "transform_inertia|parallel_axis", lambda: tm_inertia.transform_inertia(f_obj, x_obj, parallel_axis=True, mass=A.scalar("mass", mval)))
+        cmp(got, want, tolP, P + "transform_inertia|parallel_axis", "transform_inertia(parallel_axis=True) vs R^T (I + m M(t)) R")
+    if ctx_classes is not None:
+        ctx_classes.extend("args:%s=%s" % (n, k) for n, k in A.used.items())
+        ctx_classes.append("args:quant:" + q)
+        ctx_classes.append("args:cond:" + ("well" if model.wellcond else "volume_below_1000tol"))
+        if model.wellcond and A.used.get("frame") in ("int64", "int32", "intlist") and (model.cm != np.round(model.cm)).any():
+            ctx_classes.append("args:integer_frame_with_fractional_centre")
+        nontriv = False
+        if model.wellcond:
+            Icm = ex.inertia_cm()
+            nontriv = all(x != 0 for x in ex.m1) and Icm[0][1] != 0 and Icm[1][2] != 0 and Icm[0][2] != 0
+        ctx_classes.append("__nontrivial__" if nontriv else "__trivial__")
+    if defer:
+        raise defer[0]
+    return A
+
+
+@body("C03.args")
+def b_args(case, ctx):
+    """Every array / scalar argument of the functions under test is written down in one of several ways that hold
+    exactly the same numbers (float64 / float32 / float16 / integer arrays, nested lists, read-only, Fortran-ordered,
+    strided).  The result must not depend on the way the numbers were written down: the oracle is the exact integral
+    of the values, compared at float64 accuracy."""
+    classes = []
+    plain = {"f64", "float", "int64"}
+    try:
+        _run_args(case, case["kinds"], classes)
+    except Violation as v:
+        nonplain = [(n, k) for n, k in sorted(case["kinds"].items()) if k not in plain]
+        ctx.note(cls=[c for c in classes if not c.startswith("__")])
+        culprit = None
+        if len(nonplain) >= 1:
+            for n, k in nonplain:
+                try:
+                    _run_args(case, {n: k})
+                except Violation as v1:
+                    if v1.sig == v.sig:
+                        culprit = f"{n}={k}"
+                        break
+            if culprit is None:
+                try:
+                    _run_args(case, {})
+                    culprit = "combination:" + ",".join(f"{n}={k}" for n, k in nonplain)
+                except Violation as v0:
+                    culprit = "plain" if v0.sig == v.sig else "combination"
+        raise Violation(v.sig + "|" + (culprit or "plain"), f"[representations {case['kinds']}, values quantized to {case['quant']}] " + v.msg)
+    ctx.note(nontrivial="__nontrivial__" in classes, cls=[c for c in classes if not c.startswith("__")])
+
+
+ARG_NAMES = ["triangles", "crosses", "center_mass", "vertices", "frame", "identity", "center_mass_set", "tensor", "rotation"]
+
+
+@st.composite
+def args_case(draw):
+    case = draw(mesh_case(max_parts=2, max_faces=100))
+    case["quant"] = draw(st.sampled_from(["f64", "f32", "f32", "f16"]))
+    kinds = {}
+    for n in ARG_NAMES:
+        if draw(st.integers(0, 2)) > 0:
+            kinds[n] = draw(st.sampled_from(REPS))
+    for n in ("density", "density_set", "mass"):
+        if draw(st.booleans()):
+            kinds[n] = draw(st.sampled_from(SCALAR_REPS))
+    if draw(st.booleans()):
+        kinds["faces"] = draw(st.sampled_from(FACE_REPS))
+    case["kinds"] = kinds
+    case["skip_inertia"] = draw(st.sampled_from([False, False, True]))
+    case["frame_lattice"] = None
+    if draw(st.booleans()):
+        case["frame_lattice"] = {
+            "perm": list(draw(st.permutations([0, 1, 2]))),
+            "signs": [draw(st.sampled_from([1, -1])) for _ in range(3)],
+            "t": [draw(st.integers(-20, 20)) for _ in range(3)],
+        }
+    if draw(st.integers(0, 3)) == 0:
+        case["cm_mode"] = "lattice"
+    if draw(st.integers(0, 3)) == 0:
+        case["density"] = float(draw(st.integers(1, 9)))
+    return case
+
+
+@subcheck("C03", "args", shards={"quick": 6, "thorough": 12})
+def s_args(ctx):
+    ctx.given("C03.args", args_case(), n={"quick": 1500, "thorough": 40000})
 
 
 # ======================================================================================= oracle self-check
